@@ -247,3 +247,68 @@ func Probe(name string, args ...any) {
 		(*h)(name, args)
 	}
 }
+
+// ChanLock acquires a mutex that a dependency implements as a one-element
+// channel (gorilla/websocket's write lock). Nothing happens - no schedule
+// point, no choice - when the lock is free; when it is held, the caller blocks
+// under the simulator's control and passes a mandatory schedule point when it
+// gets the lock, so that the holder's release does not let two tasks run at the
+// same time.
+func ChanLock(site string, mu chan struct{}) {
+	s := cur.Load()
+	if s == nil {
+		<-mu
+		return
+	}
+	select {
+	case <-mu:
+		return
+	default:
+	}
+	t := s.setBlocked("chanlock " + site)
+	select {
+	case <-mu:
+	case <-s.abortCh:
+		runtime.Goexit()
+	}
+	if t != nil {
+		t.blocked = ""
+	}
+	YieldMust("chanlock " + site + " (woken)")
+}
+
+// ChanLockTimer is ChanLock with a timeout given as a running timer; it
+// reports whether the lock was acquired.
+func ChanLockTimer(site string, mu chan struct{}, timer *time.Timer) bool {
+	s := cur.Load()
+	if s == nil {
+		select {
+		case <-mu:
+			timer.Stop()
+			return true
+		case <-timer.C:
+			return false
+		}
+	}
+	select {
+	case <-mu:
+		timer.Stop()
+		return true
+	default:
+	}
+	t := s.setBlocked("chanlock " + site)
+	got := false
+	select {
+	case <-mu:
+		timer.Stop()
+		got = true
+	case <-timer.C:
+	case <-s.abortCh:
+		runtime.Goexit()
+	}
+	if t != nil {
+		t.blocked = ""
+	}
+	YieldMust("chanlock " + site + " (woken)")
+	return got
+}
